@@ -201,6 +201,32 @@ def main():
             if len(diffs) > 20:
                 break
         traces.append(tr)
+    if ki in (0, 2) and job.get('loose_witness', True):
+        # a tree with a loose separator (BTreeImpl!Loosen: what an older database may hold), then a split of the interior
+        # node that carries it: the C code hands the stored separator up, the Python code the smallest key of the new
+        # sibling - equal contents, two different shapes (named deviation Py_GrowSepIsMinKey, finding D52)
+        sz = embed.set_sizes([C[0], C[2], PY[0], PY[2]], 2, 2)
+        ap = api.apply_set if is_set else api.apply_map
+        hist = [dict(op='setitem', k=r, v=1) for r in (1, 2, 3, 4, 5)] + [dict(op='delitem', k=1, v=0), dict(op='delitem', k=2, v=0),
+                dict(op='setitem', k=1, v=1), dict(op='delitem', k=3, v=0), dict(op='loosen', k=2, v=2, p=[1]), dict(op='setitem', k=3, v=1)]
+        tc, tp = C[ki](), PY[ki]()
+        try:
+            for a in hist:
+                ap(tc, emb, a, 0)
+                ap(tp, emb, a, 0)
+            same_items = [emb.rk(x) for x in tc.keys()] == [emb.rk(x) for x in tp.keys()]
+            tc._check()
+            tp._check()
+            if not same_items:
+                diffs.append(dict(event=dict(op='loose-split'), what='contents', c=[emb.rk(x) for x in tc.keys()], py=[emb.rk(x) for x in tp.keys()]))
+            elif sig(tc) != sig(tp):
+                diffs.append(dict(event=dict(op='loose-split'), what='loose-split-shape', c=sig(tc), py=sig(tp)))
+        except Exception as e:
+            diffs.append(dict(event=dict(op='loose-split'), what='loose-split-raises', c=repr(e), py=''))
+        counts['calls'] += len(hist)
+        embed.restore_sizes(sz)
+        if old:
+            embed.set_sizes([C[0], C[2], PY[0], PY[2]], leaf, internal)
     if old:
         embed.restore_sizes(old)
     json.dump(dict(traces=traces, diffs=diffs[:30], counts=counts), open(sys.argv[2], 'w'))
